@@ -249,6 +249,7 @@ func (c *goCallable) validateArgCount(argv []reflect.Value) ([]reflect.Value, er
 	if c.contextHandler != nil && c.contextHandler(argv) {
 		// TODO: Return an error if the evaluation context
 		// is not the correct type.
+		verifGate("ctx-use", c, c.context)
 		newargv := make([]reflect.Value, 1, len(argv)+1)
 		newargv[0] = c.context
 		argv = append(newargv, argv...)
